@@ -1066,16 +1066,29 @@ fn run_other(kind: &str, mode: u64, seed: u64, n: usize, o: &mut Outcome) -> Res
             for round in 0..(n / 8).max(1) {
                 let cnt = rng.usize(40);
                 let mut pairs: Vec<(u32, i64)> = Vec::new();
+                // The input as given, repeated keys included: like a list of pairs, a later pair
+                // with the same key replaces the value.
+                let mut raw: Vec<(u32, i64)> = Vec::new();
                 for _ in 0..cnt {
                     let k = rng.below(universe as u64 * 2) as u32;
                     let v = rng.range(0, 99);
+                    raw.push((k, v));
                     match pairs.iter().position(|x| x.0 == k) {
                         Some(p) => pairs[p].1 = v,
                         None => pairs.push((k, v)),
                     }
                 }
-                let sm: SortedMap<K, i64> = pairs.iter().map(|(k, v)| (key(mode, *k), *v)).collect();
-                let ss: SortedSet<K> = pairs.iter().map(|(k, _)| key(mode, *k)).collect();
+                if raw.len() != pairs.len() {
+                    o.bump("probe.sorted_built_from_input_with_repeated_keys", 1);
+                }
+                let sm: SortedMap<K, i64> = raw.iter().map(|(k, v)| (key(mode, *k), *v)).collect();
+                let ss: SortedSet<K> = raw.iter().map(|(k, _)| key(mode, *k)).collect();
+                // The same through the other constructors.
+                let via_small: SortedMap<K, i64> = SortedMap::from(raw.iter().map(|(k, v)| (key(mode, *k), *v)).collect::<SmallMap<K, i64>>());
+                let via_ordered: SortedMap<K, i64> = SortedMap::from(raw.iter().map(|(k, v)| (key(mode, *k), *v)).collect::<OrderedMap<K, i64>>());
+                if sm != via_small || sm != via_ordered || sm.iter().map(|(k, v)| (k.id, *v)).collect::<Vec<_>>() != via_small.iter().map(|(k, v)| (k.id, *v)).collect::<Vec<_>>() {
+                    return Err(format!("round {round}: SortedMap built by collect() differs from the one built from a SmallMap / OrderedMap of the same pairs"));
+                }
                 let sv: SortedVec<u32> = pairs.iter().map(|(k, _)| *k).collect();
                 let mut model = pairs.clone();
                 model.sort_by_key(|x| x.0);
@@ -1187,7 +1200,7 @@ fn run_other(kind: &str, mode: u64, seed: u64, n: usize, o: &mut Outcome) -> Res
                 let a = rng.range(0, 99);
                 let b = rng.below(1000) as u32;
                 let fault = if rng.chance(1, 12) { Some(1 + rng.below(6)) } else { None };
-                match rng.below(13) {
+                match rng.below(15) {
                     0..=3 => {
                         v2.push(V::new(a), b);
                         model.push((a, b));
@@ -1293,6 +1306,77 @@ fn run_other(kind: &str, mode: u64, seed: u64, n: usize, o: &mut Outcome) -> Res
                             return Err(format!("step {step}: Vec2 clone differs"));
                         }
                         v2 = c;
+                    }
+                    12 => {
+                        // Owning iteration over a copy whose two components both own something,
+                        // consumed from both ends and abandoned half-way: every value is yielded or
+                        // dropped exactly once.
+                        let mut w: Vec2<V, V> = Vec2::new();
+                        for (a, b) in &model {
+                            w.push(V::new(*a), V::new(*b as i64));
+                        }
+                        let live_before = LIVE.with(|l| l.borrow().len());
+                        let total = model.len();
+                        let front = rng.usize(total + 1);
+                        let back = rng.usize(total - front + 1);
+                        let mut it = w.into_iter();
+                        let mut got_front: Vec<(i64, i64)> = Vec::new();
+                        let mut got_back: Vec<(i64, i64)> = Vec::new();
+                        for _ in 0..front {
+                            if let Some((x, y)) = it.next() {
+                                got_front.push((x.val, y.val));
+                            }
+                        }
+                        for _ in 0..back {
+                            if let Some((x, y)) = it.next_back() {
+                                got_back.push((x.val, y.val));
+                            }
+                        }
+                        if it.len() != total - front - back {
+                            return Err(format!("step {step}: Vec2 IntoIter::len after {front}+{back} of {total}"));
+                        }
+                        drop(it);
+                        let want_front: Vec<(i64, i64)> = model[..front].iter().map(|(a, b)| (*a, *b as i64)).collect();
+                        let want_back: Vec<(i64, i64)> = model[total - back..].iter().rev().map(|(a, b)| (*a, *b as i64)).collect();
+                        if got_front != want_front || got_back != want_back {
+                            return Err(format!("step {step}: Vec2 into_iter yielded {got_front:?} / {got_back:?}"));
+                        }
+                        let live_after = LIVE.with(|l| l.borrow().len());
+                        let dd = DOUBLE_DROP.with(|d| d.get());
+                        if dd > 0 {
+                            return Err(format!("step {step}: Vec2 into_iter abandoned after {front} front / {back} back of {total}: {dd} value(s) dropped twice"));
+                        }
+                        if live_after + 2 * total != live_before {
+                            return Err(format!("step {step}: Vec2 into_iter abandoned after {front} front / {back} back of {total}: {} value(s) never dropped", live_after + 2 * total - live_before));
+                        }
+                        o.bump("probe.vec2_into_iter_abandoned", 1);
+                    }
+                    13 => {
+                        // A second component without size (the unit type): still a list of pairs.
+                        let mut z: Vec2<V, ()> = Vec2::new();
+                        for (a, _) in &model {
+                            z.push(V::new(*a), ());
+                        }
+                        let borrowed: Vec<i64> = z.iter().map(|(x, _)| x.val).collect();
+                        let want: Vec<i64> = model.iter().map(|x| x.0).collect();
+                        if borrowed != want || z.len() != want.len() {
+                            return Err(format!("step {step}: Vec2<_, ()> iteration {borrowed:?} vs {want:?}"));
+                        }
+                        let r = catch_unwind(AssertUnwindSafe(|| z.into_iter().map(|(x, _)| x.val).collect::<Vec<i64>>()));
+                        match r {
+                            Ok(owned) if owned == want => o.bump("probe.vec2_zero_sized_second_component", 1),
+                            Ok(owned) => {
+                                if !want.is_empty() {
+                                    o.note_known("vec2/zero-sized-second-component", format!("Vec2<_, ()>::into_iter of {} entries yields {:?}", want.len(), owned));
+                                }
+                            }
+                            Err(_) => {
+                                let msg = take_last_panic().unwrap_or_default();
+                                o.note_known("vec2/zero-sized-second-component", format!("Vec2<_, ()>::into_iter of {} entries panics: {}", want.len(), msg.lines().next().unwrap_or("")));
+                            }
+                        }
+                        // Whatever happened, the tracked values of `z` are not part of the rest of the history.
+                        DOUBLE_DROP.with(|d| d.set(0));
                     }
                     _ => {
                         if rng.chance(1, 8) {
